@@ -120,20 +120,21 @@ namespace Givaro {
             if (*_cnt ==1) {
                 if (_psz >=s) { _size = s; return; }
             }
-            else (*_cnt) --;
+            // shared storage: the reference is dropped (once) by destroy() below
         }
         if (s >0) {
+            const size_t n = (_size < s) ? _size : s; // number of recopied Elements
             T* tmp = GivaroMM<T>::allocate(s);
-            GivaroMM<T>::initialize(tmp+_size, s-_size);
+            GivaroMM<T>::initialize(tmp+n, s-n);
             if (_cnt !=0) {
-                for (size_t i=0; i<_size; i++)
+                for (size_t i=0; i<n; i++)
                     GivaroMM<T>::initone(&(tmp[i]), _d[i]);
                 this->destroy();
             }
             _cnt = GivaroMM<int>::allocate(1);
             *_cnt = 1;
             _d = tmp;
-        } else _cnt =0;
+        } else this->destroy();
         _psz = _size = s;
     }
 
